@@ -19,7 +19,7 @@ func init() {
 			"(R2) the result is written before done is closed and every read outside the completing function is dominated by a receive on done; (R3) the closer deregisters exactly the agent ref that was registered, and registration precedes the request's enqueue; " +
 			"(R4) a completion source armed before the registration is compensated by a completion re-check after it that deregisters; (R5) the kill routine completes the dying actor's pending asks with the actor-dead error on every path; " +
 			"(R6) the reply address contains a fresh UUID and is the sender of the request envelope and the registry key; (R7) forwarders/timer under the future's mutex, the agent table under its lock (no escape of the inner map). " +
-			"NOT decided: 'no earlier than its timeout' (clock), that Result/Wait return (they block on done; R1 shows done is closed on every completing path); timeout<=0 arms no timer by design.",
+			"(R8) a forwarder is appended only after observing 'not completed' while holding the mutex under which the completing function takes the forwarder list, in one critical section. NOT decided: 'no earlier than its timeout' (clock), that Result/Wait return (they block on done; R1 shows done is closed on every completing path); timeout<=0 arms no timer by design.",
 		Rules: []Rule{
 			{ID: "C04.R1", Min: 8, Desc: "one-shot completion", Fn: c04OneShot},
 			{ID: "C04.R2", Min: 4, Desc: "safe publication of the result", Fn: c04Publication},
@@ -28,6 +28,7 @@ func init() {
 			{ID: "C04.R5", Min: 1, Desc: "asker death completes pending asks", Fn: c04AskerDeath},
 			{ID: "C04.R6", Min: 3, Desc: "fresh reply address used consistently", Fn: c04Address},
 			{ID: "C04.R7", Min: 20, Desc: "future and agent-table locking", Fn: c04Locks},
+			{ID: "C04.R8", Min: 1, Desc: "forwarder registration decided under the flush lock", Fn: c04ForwarderRace},
 		},
 	})
 }
@@ -744,3 +745,78 @@ func (p *Program) checkFieldTableDedup(r *Report, rel, typ string, table map[str
 }
 
 var _ = callgraph.Edge{}
+
+func c04ForwarderRace(p *Program, r *Report) {
+	f := futOrFail(p, r)
+	if f == nil {
+		return
+	}
+	n := 0
+	seen := map[string]bool{}
+	for _, a := range p.fieldAccesses(map[*types.Var]bool{f.Fwd: true}) {
+		st, ok := a.In.(*ssa.Store)
+		if !ok || !a.Write || a.Fresh || isNilConst(st.Val) {
+			continue
+		}
+		fo := a.Fn
+		if o := fo.Origin(); o != nil {
+			fo = o
+		}
+		if fo == f.CloseFn {
+			continue
+		}
+		k := p.pos(a.In.Pos())
+		if seen[k] {
+			continue
+		}
+		seen[k] = true
+		n++
+		g := p.ig(a.Fn)
+		li := p.held(a.Fn)
+		// loads of the completion flag made with mu held, whose "not closed" edge dominates the store, with no unlock in between
+		ok2 := false
+		for _, ifi := range ifsOf(a.Fn) {
+			for _, outcome := range []bool{true, false} {
+				fc, okf := condFact(ifi.Cond, outcome)
+				if !okf || !fc.Bool || fc.Op != token.EQL {
+					continue
+				}
+				c, isC := fc.X.(*ssa.Call)
+				if !isC || !strings.HasSuffix(calleeQual(&c.Call), "(sync/atomic.Bool).Load") {
+					continue
+				}
+				if fl, _ := fieldAddr(c.Call.Args[0]); fl != f.Closed {
+					continue
+				}
+				ld := g.Idx[c]
+				if li.at(ld)[f.Mu] != 2 {
+					continue
+				}
+				e := g.branchEdge(ifi, outcome)
+				if !g.DominatedByEdges(a.Node, map[edge]bool{e: true}) {
+					continue
+				}
+				unlocks := nodesWhere(g, func(in ssa.Instruction) bool { op, lf := lockOp(in); return lf == f.Mu && op == "Unlock" })
+				if g.Reach([]int{e.to}, unlocks, nil)[a.Node] || a.Node == e.to {
+					// reachable without passing an unlock: same critical section
+					clean := true
+					for u := range unlocks {
+						if g.ReachAfter(ld, setOf(a.Node), nil)[u] && g.ReachAfter(u, nil, nil)[a.Node] && !g.mustPass(u, a.Node, nodesWhere(g, func(in ssa.Instruction) bool { return false })) {
+							// an unlock between the load and the store on some path
+							if g.ReachAfter(ld, setOf(a.Node), nil)[u] {
+								clean = false
+							}
+						}
+					}
+					if clean {
+						ok2 = true
+					}
+				}
+			}
+		}
+		r.Check(ok2, "forwarder appended in "+fnName(a.Fn), a.In.Pos(), "the append is dominated by the not-completed edge of a closed.Load() executed with the future's mutex held, in the same critical section as the append: the completing function sets closed before it takes the forwarder list under that mutex, so a forwarder is either flushed by it or sent directly — never lost")
+	}
+	if n == 0 {
+		r.Unresolved("no forwarder registration found")
+	}
+}
